@@ -6,6 +6,7 @@ class is empty).  Core only.
 -/
 import Biogo.Spec.AffineOpt
 import Biogo.Proofs.AffineAln
+import Biogo.Proofs.AlignAffTable
 
 namespace Biogo.Proofs.AffineOpt
 open Biogo.Spec.Alignment Biogo.AlignAff Biogo.Spec.AffineOpt Biogo.Proofs.AffineAln
@@ -686,5 +687,143 @@ theorem globalOpt_isOpt (cross : Bool) (S : Matrix) (o : Int) (r q : List Nat) :
     (Nat.le_refl _) (Nat.le_refl _))
   simp only [List.take_length] at h
   exact isOpt_congr (fun a => by simp [Adm, fits, IsGlobal, NoAdj, and_assoc]) h
+
+/-- local alignments are the alignments of the cells' classes -/
+theorem local_iff (a : Aln) (r q : List Nat) :
+    IsLocal a r q ↔ ∃ i j, i ≤ r.length ∧ j ≤ q.length ∧ projR a <:+ r.take i ∧ projQ a <:+ q.take j := by
+  constructor
+  · rintro ⟨r1, r2, r3, q1, q2, q3, hr, hq, har, haq⟩
+    refine ⟨(r1 ++ r2).length, (q1 ++ q2).length, ?_, ?_, ?_, ?_⟩
+    · rw [hr]; simp
+    · rw [hq]; simp
+    · rw [hr, List.take_left, har]; exact List.suffix_append r1 r2
+    · rw [hq, List.take_left, haq]; exact List.suffix_append q1 q2
+  · rintro ⟨i, j, _, _, ⟨r1, hr1⟩, ⟨q1, hq1⟩⟩
+    refine ⟨r1, projR a, r.drop i, q1, projQ a, q.drop j, ?_, ?_, rfl, rfl⟩
+    · rw [hr1, List.take_append_drop]
+    · rw [hq1, List.take_append_drop]
+
+theorem maxOver_isOpt {f : Aln → Int} (Ps : Nat → Aln → Prop) :
+    ∀ (cells : List Cell) (base : Nat) (init : V) (P0 : Aln → Prop), IsOpt P0 f init →
+      (∀ k, k < cells.length → IsOpt (Ps (base + k)) f (cellBest (cells.getD k noCell))) →
+      IsOpt (fun a => P0 a ∨ ∃ k, k < cells.length ∧ Ps (base + k) a) f (maxOver cells init) := by
+  intro cells
+  induction cells with
+  | nil =>
+    intro base init P0 h0 _
+    exact isOpt_congr (fun a => by simp) h0
+  | cons c cs ih =>
+    intro base init P0 h0 hcells
+    have hc : IsOpt (Ps base) f (cellBest c) := by simpa using hcells 0 (by simp)
+    have hrest : ∀ k, k < cs.length → IsOpt (Ps (base + 1 + k)) f (cellBest (cs.getD k noCell)) := by
+      intro k hk
+      have := hcells (k + 1) (by simpa using hk)
+      simpa [Nat.add_assoc, Nat.add_comm 1 k] using this
+    have := ih (base + 1) _ _ (isOpt_max2 h0 hc) hrest
+    simp only [maxOver, List.foldl_cons] at this ⊢
+    refine isOpt_congr ?_ this
+    intro a
+    constructor
+    · rintro ((h | h) | ⟨k, hk, h⟩)
+      · exact Or.inl h
+      · exact Or.inr ⟨0, by simp, by simpa using h⟩
+      · exact Or.inr ⟨k + 1, by simpa using hk, by simpa [Nat.add_assoc, Nat.add_comm 1 k] using h⟩
+    · rintro (h | ⟨k, hk, h⟩)
+      · exact Or.inl (Or.inl h)
+      · cases k with
+        | zero => exact Or.inl (Or.inr (by simpa using h))
+        | succ k =>
+          exact Or.inr ⟨k, by simpa using hk, by simpa [Nat.add_assoc, Nat.add_comm 1 k] using h⟩
+
+theorem maxRows_isOpt {f : Aln → Int} (Ps : Nat → Nat → Aln → Prop) :
+    ∀ (rows : List (List Cell)) (base : Nat) (init : V) (P0 : Aln → Prop), IsOpt P0 f init →
+      (∀ i, i < rows.length → ∀ k, k < (rows.getD i []).length →
+        IsOpt (Ps (base + i) k) f (cellBest ((rows.getD i []).getD k noCell))) →
+      IsOpt (fun a => P0 a ∨ ∃ i, i < rows.length ∧ ∃ k, k < (rows.getD i []).length ∧ Ps (base + i) k a) f
+        (rows.foldl (fun acc row => maxOver row acc) init) := by
+  intro rows
+  induction rows with
+  | nil =>
+    intro base init P0 h0 _
+    exact isOpt_congr (fun a => by simp) h0
+  | cons row rows ih =>
+    intro base init P0 h0 hrows
+    have hrow := maxOver_isOpt (Ps base) row 0 init P0 h0 (fun k hk => by
+      have := hrows 0 (by simp) k (by simpa using hk)
+      simpa using this)
+    have hrest : ∀ i, i < rows.length → ∀ k, k < (rows.getD i []).length →
+        IsOpt (Ps (base + 1 + i) k) f (cellBest ((rows.getD i []).getD k noCell)) := by
+      intro i hi k hk
+      have := hrows (i + 1) (by simpa using hi) k (by simpa using hk)
+      simpa [Nat.add_assoc, Nat.add_comm 1 i] using this
+    have := ih (base + 1) _ _ hrow hrest
+    simp only [List.foldl_cons]
+    refine isOpt_congr ?_ this
+    intro a
+    constructor
+    · rintro ((h | ⟨k, hk, h⟩) | ⟨i, hi, k, hk, h⟩)
+      · exact Or.inl h
+      · exact Or.inr ⟨0, by simp, k, by simpa using hk, by simpa using h⟩
+      · exact Or.inr ⟨i + 1, by simpa using hi, k, by simpa using hk,
+          by simpa [Nat.add_assoc, Nat.add_comm 1 i] using h⟩
+    · rintro (h | ⟨i, hi, k, hk, h⟩)
+      · exact Or.inl (Or.inl h)
+      · cases i with
+        | zero => exact Or.inl (Or.inr ⟨k, by simpa using hk, by simpa using h⟩)
+        | succ i =>
+          exact Or.inr ⟨i, by simpa using hi, k, by simpa using hk,
+            by simpa [Nat.add_assoc, Nat.add_comm 1 i] using h⟩
+
+/-- `localOpt cross` is the maximum of the affine score over the local alignments of `r` and
+    `q`, the empty alignment (score 0) included -/
+theorem localOpt_isOpt (cross : Bool) (S : Matrix) (o : Int) (r q : List Nat) :
+    IsOpt (fun a => IsLocal a r q ∧ (cross = true ∨ NoAdj a)) (scoreAff S o)
+      (localOpt cross S o r q) := by
+  have hlen : (optRows ⟨cross, true, true⟩ S o r q).length = r.length + 1 := by
+    simp [optRows, Biogo.Proofs.AlignAffTable.fillRows_length]
+  have hrowlen : ∀ i, i ≤ r.length → ((optRows ⟨cross, true, true⟩ S o r q).getD i []).length = q.length + 1 := by
+    intro i hi
+    exact Biogo.Proofs.AlignAffTable.rows_getD_len _ _ q r _ (row0_ok ⟨cross, true, true⟩ S o q).1 i hi
+  have h0 : IsOpt (fun a => a = []) (scoreAff S o) (some 0) :=
+    isOpt_congr (fun a => by simp) (isOpt_emptyAt S o true)
+  have h := maxRows_isOpt (f := scoreAff S o)
+    (fun i k a => Adm ⟨cross, true, true⟩ (r.take i) (q.take k) a)
+    (optRows ⟨cross, true, true⟩ S o r q) 0 (some 0) _ h0 (by
+      intro i hi k hk
+      rw [hlen] at hi
+      rw [hrowlen i (by omega)] at hk
+      simpa [rowAt] using cellBest_isOpt (optRows_ok ⟨cross, true, true⟩ S o r q i k (by omega) (by omega)))
+  refine isOpt_congr ?_ h
+  intro a
+  simp only [Nat.zero_add]
+  constructor
+  · rintro (rfl | ⟨i, hi, k, hk, hr, hq, hn⟩)
+    · exact ⟨(local_iff [] r q).mpr ⟨0, 0, Nat.zero_le _, Nat.zero_le _, by simp [projR], by simp [projQ]⟩,
+        Or.inr rfl⟩
+    · rw [hlen] at hi
+      rw [hrowlen i (by omega)] at hk
+      exact ⟨(local_iff a r q).mpr ⟨i, k, by omega, by omega, by simpa [fits] using hr, by simpa [fits] using hq⟩, hn⟩
+  · rintro ⟨hloc, hn⟩
+    obtain ⟨i, j, hi, hj, hr, hq⟩ := (local_iff a r q).mp hloc
+    exact Or.inr ⟨i, by rw [hlen]; omega, j, by rw [hrowlen i hi]; omega,
+      by simpa [fits] using hr, by simpa [fits] using hq, hn⟩
+
+/-- `fittedOpt cross … e` is the maximum of the affine score over the alignments of all of `q`
+    with a segment of `r` that ends just before `e` -/
+theorem fittedOpt_isOpt (cross : Bool) (S : Matrix) (o : Int) (r q : List Nat) (e : Nat) (he : e ≤ r.length) :
+    IsOpt (fun a => IsFitted a r q e ∧ (cross = true ∨ NoAdj a)) (scoreAff S o)
+      (fittedOpt cross S o r q e) := by
+  have h := cellBest_isOpt (optRows_ok ⟨cross, true, false⟩ S o r q e q.length he (Nat.le_refl _))
+  simp only [List.take_length] at h
+  refine isOpt_congr ?_ h
+  intro a
+  simp only [Adm, fits, if_true, Bool.false_eq_true, if_false, IsFitted, IsGlobal, NoAdj]
+  constructor
+  · rintro ⟨hr, hq, hn⟩
+    refine ⟨⟨(r.take e).length - (projR a).length, ?_, he, ?_, hq⟩, hn⟩
+    · have := List.length_take_le e r; omega
+    · exact List.suffix_iff_eq_drop.mp hr
+  · rintro ⟨⟨i, _, _, hr, hq⟩, hn⟩
+    exact ⟨by rw [hr]; exact List.drop_suffix i _, hq, hn⟩
 
 end Biogo.Proofs.AffineOpt
